@@ -17,13 +17,17 @@ residue.sum-of-atoms  residue mode == sum of the atom-mode values of the residue
 subset.kept-bit-identical / subset.unselected-minus-one / subset.residue
                       atom_indices leaves kept atoms bit-identical to the unrestricted call, everything else is
                       exactly -1; residue mode sums the selected atoms only, residues without one are exactly -1.
+                      Subsets: single, sorted half, unsorted, with repeats, contiguous, empty, all; given as list,
+                      int64/int32 ndarray.
+subset.container      the same subsets given as a tuple (the docstring asks for an "iterable"): must equal the list form.
 mapping               get_mapping=True returns (areas, mapping): areas bit-identical to the plain call, mapping is
                       arange (atom) / the residue index of every atom (residue) and groups the atom values.
 radii.metamorphic     change_radii that restates documented values, and a call after a change_radii call, are
                       bit-identical to the plain call (no leak into the module table).
 multiframe.frame-equals-single
                       every frame of a 1..12-frame call equals, bit for bit, the call on that frame alone, for OpenMP
-                      team sizes {1,2,3,5,8} set in-process (omp_set_num_threads). A mismatch is classified as
+                      team sizes {1,2,3,5,8} set in-process (omp_set_num_threads), in atom and residue mode, with and
+                      without atom_indices. A mismatch is classified as
                       `multiframe:per-thread-accumulator-not-reset-between-frames` ONLY when (a) the single-frame values
                       of the case agree with the oracle, (b) all mismatching frames are not the first frame of their
                       thread's static chunk and (c) every mismatching value obeys the carry-over model
@@ -49,7 +53,7 @@ RULE = ("cases = (kind in cluster/protein/isolated/two-sphere, n_sphere_points, 
         "runs the real shrake_rupley frame by frame, as one multi-frame call, in both modes and with subsets; a case is "
         "non-trivial when a monitor decided; distinct = distinct descriptors")
 WORKERS = {"quick": 8, "thorough": 16}
-BUDGET = {"quick": 60, "thorough": 900}
+BUDGET = {"quick": 60, "thorough": 600}
 # passive waiting: the team size changes from call to call and the workers oversubscribe the cores; spinning
 # libgomp threads would cost 10-50 ms per call
 ENV = {"OMP_NUM_THREADS": "4", "OMP_DYNAMIC": "false", "OMP_WAIT_POLICY": "passive", "GOMP_SPINCOUNT": "0"}
@@ -63,10 +67,10 @@ ASSUMPTIONS = [
     "OpenMP loops use the default static schedule of libgomp (thread t gets a contiguous block); team size is what "
     "omp_set_num_threads set (OMP_DYNAMIC=false)",
 ]
-FLOORS = {"quick": {"oracle.atom-count": 50000, "multiframe.frame-equals-single": 4000, "residue.sum-of-atoms": 15000,
+FLOORS = {"quick": {"oracle.atom-count": 50000, "multiframe.frame-equals-single": 8000, "residue.sum-of-atoms": 25000,
                     "subset.kept-bit-identical": 7000, "subset.residue": 4000, "subset.unselected-minus-one": 500,
                     "mapping": 3500, "analytic.isolated": 1000, "analytic.two-sphere": 800, "radii.metamorphic": 500}}
-NCASES = {"quick": 2000, "thorough": 24000}
+NCASES = {"quick": 1600, "thorough": 10000}
 KINDS = ["cluster", "cluster", "cluster", "cluster", "protein", "isolated", "two", "cluster"]
 NPOINTS = [1, 2, 10, 100, 960]
 TEAMS = [1, 2, 3, 5, 8]
@@ -203,6 +207,8 @@ def _build(case):
         scale = float(rng.uniform(0.07, 0.3))
         offset = rng.uniform(-20, 20, 3) if rng.random() < 0.3 else np.zeros(3)
         xyz = np.array([_cluster_frame(rng, na, scale, offset) for _ in range(nf)], dtype=np.float32)
+        if rng.random() < 0.04:
+            sym[int(rng.integers(na))] = "D"  # an element mdtraj knows but the radii table does not
         t = md.Trajectory(xyz, _topology(rng, sym))
     elif kind == "isolated":
         na = case["n_atoms"]
@@ -242,7 +248,10 @@ def _build(case):
         t = md.Trajectory(xyz.astype(np.float32), t.topology)
         sym = [a.element.symbol for a in t.topology.atoms]
         extra["file"] = case["file"]
-    return t, sym, _change_radii(rng, sym, case), rng, extra
+    cr = _change_radii(rng, sym, case)
+    if "D" in sym and rng.random() < 0.5:
+        cr = dict(cr or {}, D=0.12)
+    return t, sym, cr, rng, extra
 
 
 def _change_radii(rng, sym, case):
@@ -395,8 +404,14 @@ def run_case(case, ctx):
         return
     try:
         R = O.expanded_radii(sym, case["probe"], cr)
-    except KeyError:
-        ctx.skip("oracle.atom-count", "element without a documented radius")
+    except KeyError as e:
+        # no documented radius and none supplied: there is nothing to compare with; record what mdtraj does
+        try:
+            _sr(t[0], case, cr)
+            ctx.observe("undocumented_element", f"{e.args[0]}: computed with an undocumented radius")
+        except KeyError:
+            ctx.observe("undocumented_element", f"{e.args[0]}: refused with KeyError")
+        ctx.skip("oracle.atom-count", "element without a documented radius (outside the domain)")
         return
     table_before = dict(msasa._ATOMIC_RADII)
 
@@ -491,15 +506,28 @@ def run_case(case, ctx):
         ctx.observe("subset", f"{style}/{container}")
         mask = np.zeros(na, dtype=bool)
         mask[idx] = True
-        try:
-            sa = _sr(t[f0], case, cr, atom_indices=ai)
-            sr_ = _sr(t[f0], case, cr, mode="residue", atom_indices=ai)
-        except IndexError as e:
-            if container == "tuple":
-                ctx.violation("subset.container", TUPLE_KEY,
-                              f"atom_indices given as a tuple of {len(idx)} valid indices raises IndexError: {e}", n_indices=len(idx))
+        sa = sr_ = None
+        failed = False
+        for mode_ in ("atom", "residue"):
+            try:
+                r_ = _sr(t[f0], case, cr, mode=mode_, atom_indices=ai)
+            except Exception as e:  # valid indices of existing atoms: nothing to refuse
+                failed = True
+                if container == "tuple" and isinstance(e, IndexError):
+                    ctx.violation("subset.container", TUPLE_KEY,
+                                  f"atom_indices given as a tuple of {len(idx)} valid indices raises IndexError: {e}", n_indices=len(idx))
+                    break
+                ctx.violation("subset.kept-bit-identical" if mode_ == "atom" else "subset.residue",
+                              f"atom_indices:{mode_}-mode:raises:{type(e).__name__}",
+                              f"atom_indices ({style}, {container}, {len(idx)} valid indices) in {mode_} mode raises {type(e).__name__}: {e}",
+                              subset=idx[:20])
                 continue
-            raise
+            if mode_ == "atom":
+                sa = r_
+            else:
+                sr_ = r_
+        if failed and (container == "tuple" or sa is None):
+            continue
         if container == "tuple":
             # a tuple is an iterable of indices (docstring) but sasa.py uses it as a numpy index: judged on its own
             # monitor so that this mechanism cannot hide in, or be hidden by, the subset monitors
@@ -526,6 +554,8 @@ def run_case(case, ctx):
             okm = bool(np.all(_bits(sa[0][un]) == minus1))
             ctx.check(okm, "subset.unselected-minus-one", "atom_indices:atom-mode:unselected-not-minus-one",
                       f"unselected atoms are not exactly -1: {sa[0][un][:6]}", subset=idx[:20])
+        if sr_ is None:
+            continue
         if sr_.shape != (1, nres):
             ctx.violation("shape", "atom_indices:residue-mode:shape", f"shape {sr_.shape}")
             continue
@@ -540,7 +570,7 @@ def run_case(case, ctx):
     if nf - len(starts):
         ctx.observe("frame_position", "later-in-chunk", nf - len(starts))
     sub_idx, sub_cont, sub_style = _subset(rng, na)
-    variants = [("atom", None), ("residue", None), ("atom", sub_idx)]
+    variants = [("atom", None), ("residue", None), ("atom", sub_idx), ("residue", sub_idx)]
     atom_multi = None
     carry_confirmed = False
     for mode, ai in variants:
@@ -559,7 +589,7 @@ def run_case(case, ctx):
         if mode == "atom":
             exp = np.where(mask[None, :], single, np.float32(-1.0)).astype(np.float32)
         else:
-            exp = np.vstack([_sr(t[f], case, cr, mode="residue") for f in range(nf)])
+            exp = np.vstack([_sr(t[f], case, cr, mode="residue", **kw) for f in range(nf)])
         mism = [f for f in range(nf) if not _same_bits(multi[f], exp[f])]
         label = f"{mode}{'' if ai is None else '+atom_indices'}"
         if mode == "atom" and ai is None:
@@ -567,7 +597,7 @@ def run_case(case, ctx):
         if mode == "residue" and atom_multi is not None:
             for f in range(nf):
                 _check_residue_sum(ctx, "residue.sum-of-atoms", "residue-mode:multi-frame:not-sum-of-atom-mode-of-same-call", multi[f],
-                                   atom_multi[f], resmap, nres, all_sel, f"multi-frame call, frame {f}")
+                                   atom_multi[f], resmap, nres, mask, f"multi-frame call, frame {f}")
         ctx.ok("multiframe.frame-equals-single", nf - len(mism))
         if not mism:
             continue
